@@ -25,6 +25,7 @@ type nlpEv struct {
 	UW     []int  `json:"uw"`     // the user's words in order (cleaned, lower case), interned
 	KW     []int  `json:"kw"`     // ProcessQuery(...).Keywords
 	Enh    []int  `json:"enh"`    // GetEnhancedKeywords()
+	KWSyn  []int  `json:"kwsyn"`  // 1 where the keyword is the synonym the analysis inserts after the preceding keyword
 	Same   bool   `json:"same"`   // analysing the text again (same and fresh processor) gives the identical analysis
 	Panic  bool   `json:"panic"`
 }
@@ -151,6 +152,12 @@ func engineNLP(args []string) int {
 			}
 			pq := p.ProcessQuery(q)
 			ev.KW = ids(pq.Keywords)
+			ev.KWSyn = make([]int, len(pq.Keywords))
+			for i := 1; i < len(pq.Keywords); i++ {
+				if syn := p.GetSynonyms(pq.Keywords[i-1]); len(syn) > 0 && syn[0] == pq.Keywords[i] {
+					ev.KWSyn[i] = 1
+				}
+			}
 			ev.Enh = ids(pq.GetEnhancedKeywords())
 			ev.UW = ids(strings.Fields(strings.ToLower(pq.Cleaned)))
 			a1 := analysisString(pq)
@@ -159,7 +166,7 @@ func engineNLP(args []string) int {
 				ev.Same = a1 == analysisString(nlp.NewQueryProcessor().ProcessQuery(q))
 			}
 		}()
-		for _, f := range []*[]int{&ev.Off, &ev.On, &ev.First4, &ev.OnCmp, &ev.UW, &ev.KW, &ev.Enh} {
+		for _, f := range []*[]int{&ev.Off, &ev.On, &ev.First4, &ev.OnCmp, &ev.UW, &ev.KW, &ev.Enh, &ev.KWSyn} {
 			if *f == nil {
 				*f = []int{}
 			}
